@@ -98,7 +98,8 @@ def worker(args):
                     if bus is None:
                         bus = rr.Bus(exe, cfg)
                     res = rr.run_script(bus, parse_events(s["events"]), rr.parse_groups(line), [bytes.fromhex(c) for c in s["canaries"]], s.get("blast"), tuple(s.get("noread", ())), bool(s.get("fresh")), s.get("throttle"),
-                                        s["kind"].split(":")[0] in ("close", "flood", "blast", "quota", "throttle", "slots", "activation"))
+                                        s["kind"].split(":")[0] in ("close", "flood", "blast", "quota", "throttle", "slots", "activation", "matrix"),
+                                        0.1 if s["kind"] == "matrix" else 0.3)
                 except Exception:
                     res = {"problems": [("violation", "executor exception (bus unusable?): " + " / ".join(traceback.format_exc().strip().split("\n")[-3:])[-400:])], "observed": [], "stats": {}}
                 res["attempts"] = attempt + 1
@@ -157,8 +158,8 @@ def run(ctx):
                 if f.endswith(".json"):
                     scripts += json.load(open(os.path.join(cdir, f)))
         n_plain, n_flood, n_timed, n_blast = (1800, 16, 18, 10) if tier == "quick" else (16000, 160, 220, 80)
-        n_close, n_slots, n_act, n_thr = (60, 24, 30, 8) if tier == "quick" else (1500, 500, 400, 100)
-        gen = rg.generate(rnd, n_plain, n_flood, n_timed, n_blast, n_close, n_slots, n_act, n_thr)
+        n_close, n_slots, n_act, n_thr, n_mat = (60, 24, 30, 8, 500) if tier == "quick" else (1500, 500, 400, 100, 100000)
+        gen = rg.generate(rnd, n_plain, n_flood, n_timed, n_blast, n_close, n_slots, n_act, n_thr, n_mat)
         if tier != "quick":
             big = rg.gen_quota(rnd, n=34000, cfg=rg.CFG_MAIN)      # the same with the DEFAULT max_outgoing_bytes (127 MiB)
             big["kind"] = "quota:default-limit"
